@@ -105,3 +105,19 @@ Proof.
   intros o [H|[H|[H|[]]]]; try discriminate; inversion H; subst; simpl; auto.
   intros [F|[]]. discriminate.
 Qed.
+
+(** * C11: the FULL atomicity statement, kept visible — "the interrupted operation has either happened
+    completely or not at all from a reader's point of view", for every operation. It is FALSE for a delivery
+    that evicts for the mailbox cap ([crash_atomic_capped_refuted], open finding K-C11-evict-then-append);
+    proved instead: crash_atomic_partial (no eviction) and crash_atomic_capped (what does hold). *)
+Definition crash_atomic_stmt : Prop :=
+  forall (enc : index -> str) (dec : str -> option index), (forall i, dec (enc i) = Some i) ->
+  forall (hash : str -> str) (cap : nat) (d : disk) (o : op) (d' : disk),
+    reach enc dec hash cap d -> crash_reach (steps enc dec hash cap o d) d d' ->
+    (forall h, view dec d' h = view dec d h) \/ (forall h, view dec d' h = view dec (exec enc dec hash cap o d) h).
+
+Theorem crash_atomic_stmt_false : ~ crash_atomic_stmt.
+Proof.
+  intros H. destruct crash_atomic_capped_refuted as [enc [dec [hash [cap [d [o [d' [Hde [Hr [Hc Hn]]]]]]]]]].
+  apply Hn. eapply H; eauto.
+Qed.
